@@ -2,14 +2,18 @@ package main
 
 import (
 	"context"
+	"encoding/json"
 	"fmt"
 	"hash/fnv"
 	"math/rand/v2"
 	"net"
 	"net/netip"
+	"os"
+	"runtime"
 	"sort"
 	"strings"
 	"sync"
+	"sync/atomic"
 	"time"
 
 	"github.com/AdguardTeam/AdGuardDNS/internal/access"
@@ -20,9 +24,12 @@ import (
 	"github.com/AdguardTeam/AdGuardDNS/internal/dnsserver"
 	"github.com/AdguardTeam/AdGuardDNS/internal/dnssvc"
 	"github.com/AdguardTeam/AdGuardDNS/internal/filter"
+	"github.com/AdguardTeam/AdGuardDNS/internal/geoip"
 	"github.com/AdguardTeam/AdGuardDNS/internal/profiledb"
+	"github.com/AdguardTeam/AdGuardDNS/internal/querylog"
 	"github.com/AdguardTeam/AdGuardDNS/verifh/hlib"
 	"github.com/AdguardTeam/AdGuardDNS/verifh/hlib/stack"
+	"github.com/AdguardTeam/golibs/logutil/slogutil"
 	"github.com/miekg/dns"
 	"github.com/prometheus/client_golang/prometheus"
 )
@@ -119,9 +126,13 @@ func nameHash(s string) uint32 {
 
 // upstream answers as a function of the question only, through Pack/Unpack as
 // the real forwarder does.
-func upstream() dnsserver.Handler {
+func upstream(f *fixture) dnsserver.Handler {
 	return dnsserver.HandlerFunc(func(ctx context.Context, rw dnsserver.ResponseWriter, req *dns.Msg) error {
 		q := req.Question[0]
+		f.hook(f.reqs[req.Id].Client, "upstream")
+		// Names are case-insensitive; the question is echoed as it was asked,
+		// the records carry the canonical name.
+		q.Name = strings.ToLower(q.Name)
 		h := nameHash(q.Name)
 		resp := (&dns.Msg{}).SetReply(req)
 		resp.RecursionAvailable = true
@@ -150,6 +161,14 @@ func upstream() dnsserver.Handler {
 			}
 			resp.Answer = append(resp.Answer, &dns.HTTPS{SVCB: dns.SVCB{Hdr: hdr, Priority: 1, Target: ".",
 				Value: []dns.SVCBKeyValue{&dns.SVCBAlpn{Alpn: []string{"h2", fmt.Sprint("x", h%7)}}, v4, v6}}})
+		}
+		// A validating upstream: a quarter of the names are signed; the
+		// signature is sent to those who ask for it.
+		resp.AuthenticatedData = h%4 == 0
+		if o := req.IsEdns0(); o != nil && o.Do() && h%4 == 0 && len(resp.Answer) > 0 {
+			resp.Answer = append(resp.Answer, &dns.RRSIG{Hdr: dns.RR_Header{Name: q.Name, Rrtype: dns.TypeRRSIG, Class: dns.ClassINET, Ttl: 300},
+				TypeCovered: q.Qtype, Algorithm: 13, Labels: 2, OrigTtl: 300, Expiration: 1900000000, Inception: 1700000000,
+				KeyTag: uint16(h), SignerName: "example.", Signature: "c2lnbmF0dXJl"})
 		}
 		if o := req.IsEdns0(); o != nil {
 			resp.SetEdns0(o.UDPSize(), o.Do())
@@ -184,13 +203,240 @@ type fixture struct {
 	st     *stack.Stack
 	cloner *dnsmsg.Cloner
 	srv    *agd.Server
+	// reqs are the requests of the round by ID (read-only while serving).
+	reqs map[uint16]sreq
+
+	mu      sync.Mutex
+	idViols []finding
+	// yieldSeed != 0: the hooks hand the processor to the other requests.
+	yieldSeed uint64
+	// riOwner names the request in flight that was seen with a RequestInfo.
+	riOwner map[*agd.RequestInfo]uint16
+	// hookN counts the hooks passed (the yields are a function of it).
+	hookN atomic.Uint64
+	// park: the request of client parkClient stops at hook parkStage (once)
+	// until resumeCh is closed; parkedCh is closed when it has stopped.
+	parkStage          string
+	parkClient         int
+	parkOnce           sync.Once
+	parkedCh, resumeCh chan struct{}
+	// logPath != "": the production file-system query log writes there.
+	logPath    string
+	logEntries []*querylog.Entry
+}
+
+// hookStages are the boundaries of the stack at which the fixture can hold a
+// request while others are served, in the order in which a request passes them.
+var hookStages = []string{"geoip", "profiledb", "access", "ratelimit", "filter-request", "upstream", "filter-response", "querylog"}
+
+// hook is called at every boundary between the stack and a fake, on behalf of
+// the request of the given client (-1: unknown).
+func (f *fixture) hook(client int, stage string) {
+	if f.parkStage == stage && f.parkClient == client {
+		f.parkOnce.Do(func() {
+			close(f.parkedCh)
+			<-f.resumeCh
+		})
+	}
+	if f.yieldSeed == 0 {
+		return
+	}
+	for n := h32(f.yieldSeed, f.hookN.Add(1), stage) % 3; n > 0; n-- {
+		runtime.Gosched()
+	}
+}
+
+// clientOfIP is the inverse of clientIP (-1: not a client address).
+func clientOfIP(ip netip.Addr) int {
+	if b := ip.Unmap(); b.Is4() {
+		if a := b.As4(); a[0] == 10 && a[1] == 0 && a[3] >= 1 {
+			return int(a[2])*200 + int(a[3]) - 1
+		}
+	}
+
+	return -1
+}
+
+func isAccessBlocked(host string) bool {
+	return strings.HasPrefix(strings.ToLower(host), "accessblocked.")
+}
+func isRateLimited(host string) bool { return strings.HasPrefix(strings.ToLower(host), "ratelimited.") }
+
+// claim is called with the RequestInfo that request id is seen with at a
+// filter hook.  A request is certainly in flight between its FilterRequest and
+// its FilterResponse hook (when the handler returns cannot be seen from here:
+// the RequestInfo goes back to its pool before Serve returns), so that is the
+// time for which it owns the object; other is a request that owns it then.
+func (f *fixture) claim(ri *agd.RequestInfo, id uint16, stage string, hasRespStage bool) (other uint16, shared bool) {
+	f.mu.Lock()
+	defer f.mu.Unlock()
+	if f.riOwner == nil {
+		f.riOwner = map[*agd.RequestInfo]uint16{}
+	}
+	o, ok := f.riOwner[ri]
+	shared = ok && o != id
+	switch {
+	case shared:
+	case stage == "FilterRequest" && hasRespStage:
+		f.riOwner[ri] = id
+	case stage == "FilterResponse":
+		delete(f.riOwner, ri)
+	}
+
+	return o, shared
+}
+
+// done is called when the handler of request id has returned.
+func (f *fixture) done(id uint16) {
+	f.mu.Lock()
+	defer f.mu.Unlock()
+	for ri, o := range f.riOwner {
+		if o == id {
+			delete(f.riOwner, ri)
+		}
+	}
 }
 
 func isBlockedFor(profile int, host string) bool {
 	return strings.HasPrefix(host, "blocked.") || strings.HasPrefix(host, fmt.Sprintf("p%d-blocked.", profile))
 }
 
-func newFixture(cache *dnssvc.CacheConfig) *fixture {
+// profileOf is the index of the filter that serves client c: its own profile,
+// or the default filtering group.
+func profileOf(c int) int { return min(c, nProfiles) }
+
+// devName is the human-readable name of the device of client c; every other
+// device has none.
+func devName(c int) agd.DeviceName {
+	if c < nProfiles && c%2 == 1 {
+		return agd.DeviceName(fmt.Sprintf("device-name-%d", c))
+	}
+
+	return ""
+}
+
+var geoCountries = []geoip.Country{geoip.CountryAD, geoip.CountryBR, geoip.CountryDE, geoip.CountryJP}
+
+// geoFor is the GeoIP database of the fixture: a function of the address.
+func geoFor(ip netip.Addr) *geoip.Location {
+	b := ip.As16()
+	h := nameHash(string(b[:]))
+
+	return &geoip.Location{Country: geoCountries[h%4], Continent: geoip.ContinentEU, ASN: geoip.ASN(1000 + h%50)}
+}
+
+// cnameTargets are the names that the CNAME rewrite rule of each profile (the
+// last one: of the default filtering group) points to.
+var cnameTargets = []string{"one.example.", "two.example.", "three.example.org.", "four.test.", "five.test."}
+
+// rewriteIP is the address that the rewrite rule of a profile answers with.
+func rewriteIP(profile int) netip.Addr {
+	return netip.AddrFrom4([4]byte{203, 0, 113, byte(10 + profile)})
+}
+
+// identity is the oracle at the boundary between the middlewares and the
+// filters: whatever reaches the filter of a request through pooled context
+// objects (agd.RequestInfo, filter.Request, filter.Response) must be the data of
+// that very request.  The expectation is computed from the request table only.
+func (f *fixture) identity(ctx context.Context, stage string, profile int, msg *dns.Msg, remote netip.Addr, clientName string,
+	fr *filter.Request) {
+	var bad []string
+	defer func() {
+		if v := recover(); v != nil {
+			bad = append(bad, fmt.Sprintf("panic: %v", v))
+		}
+		if len(bad) > 0 {
+			f.mu.Lock()
+			f.idViols = append(f.idViols, finding{"handler-context-of-another-request", stage + ": " + strings.Join(bad, "; ")})
+			f.mu.Unlock()
+		}
+	}()
+	if msg == nil {
+		bad = append(bad, "no message")
+
+		return
+	}
+	q, ok := f.reqs[msg.Id]
+	if !ok {
+		bad = append(bad, fmt.Sprintf("message id %d is not a request of this round", msg.Id))
+
+		return
+	}
+	chk := func(what string, got, want any) {
+		if got != want {
+			bad = append(bad, fmt.Sprintf("request %+v: %s is %v, of this request: %v", q, what, got, want))
+		}
+	}
+	host := strings.ToLower(strings.TrimSuffix(q.Name, "."))
+	qclass := uint16(dns.ClassINET)
+	if q.Chaos {
+		qclass = dns.ClassCHAOS
+	}
+	chk("filter profile", profile, profileOf(q.Client))
+	chk("remote ip", remote, clientIP(q.Client))
+	chk("client name", clientName, string(devName(q.Client)))
+	if len(msg.Question) != 1 {
+		bad = append(bad, "question count")
+	}
+	if fr != nil {
+		chk("filter.Request.Host", fr.Host, host)
+		chk("filter.Request.QType", fr.QType, q.Qtype)
+		chk("filter.Request.QClass", fr.QClass, qclass)
+		chk("question name", msg.Question[0].Name, q.Name)
+		// The constructor is the one of the profile: its TTL names it.
+		wantTTL := uint32(7)
+		if q.Client < nProfiles {
+			wantTTL = uint32(10 * (q.Client + 1))
+		}
+		if fr.Messages == nil {
+			bad = append(bad, "no message constructor")
+		} else {
+			chk("constructor (filtered-response TTL)", fr.Messages.NewAnswerCNAME(msg, "probe.").Hdr.Ttl, wantTTL)
+		}
+	}
+	ri := agd.MustRequestInfoFromContext(ctx)
+	if o, shared := f.claim(ri, q.ID, stage, !strings.HasPrefix(host, "cname.")); shared {
+		bad = append(bad, fmt.Sprintf("request %+v uses the RequestInfo object that request %d, still in flight, uses", q, o))
+	}
+	chk("RequestInfo.RemoteIP", ri.RemoteIP, clientIP(q.Client))
+	chk("RequestInfo.Host", ri.Host, host)
+	chk("RequestInfo.QType", ri.QType, q.Qtype)
+	chk("RequestInfo.QClass", ri.QClass, qclass)
+	prof, dev := ri.DeviceData()
+	if q.Client < nProfiles {
+		if prof == nil || dev == nil {
+			bad = append(bad, fmt.Sprintf("request %+v: no profile in RequestInfo", q))
+		} else {
+			chk("RequestInfo profile", string(prof.ID), fmt.Sprintf("prof%04d", q.Client))
+			chk("RequestInfo device", string(dev.ID), fmt.Sprintf("dev%05d", q.Client))
+		}
+	} else if prof != nil {
+		bad = append(bad, fmt.Sprintf("request %+v: anonymous client with profile %s", q, prof.ID))
+	}
+	if ri.Location == nil {
+		bad = append(bad, "no location")
+	} else {
+		chk("RequestInfo.Location", *ri.Location, *geoFor(clientIP(q.Client)))
+	}
+	if q.EDNS >= 3 {
+		own := q.ecs()
+		addr, _ := netip.AddrFromSlice(own.Address)
+		want := netip.PrefixFrom(addr.Unmap(), int(own.SourceNetmask)).Masked()
+		if ri.ECS == nil {
+			bad = append(bad, fmt.Sprintf("request %+v: RequestInfo.ECS is missing", q))
+		} else {
+			chk("RequestInfo.ECS.Subnet", ri.ECS.Subnet, want)
+		}
+	} else if ri.ECS != nil {
+		bad = append(bad, fmt.Sprintf("request %+v: RequestInfo.ECS is %v, the request has none", q, ri.ECS.Subnet))
+	}
+}
+
+func newFixture(cache *dnssvc.CacheConfig, reqs map[uint16]sreq, logPath ...string) *fixture {
+	f := &fixture{reqs: reqs, parkClient: -2}
+	if len(logPath) > 0 {
+		f.logPath = logPath[0]
+	}
 	profs := make([]*agd.Profile, nProfiles)
 	devs := make([]*agd.Device, nProfiles)
 	confs := map[filter.Config]int{}
@@ -199,7 +445,7 @@ func newFixture(cache *dnssvc.CacheConfig) *fixture {
 			RuleList: &filter.ConfigRuleList{}, SafeBrowsing: &filter.ConfigSafeBrowsing{}}
 		confs[conf] = i
 		devs[i] = &agd.Device{Auth: &agd.AuthSettings{PasswordHash: agdpasswd.AllowAuthenticator{}},
-			ID: agd.DeviceID(fmt.Sprintf("dev%05d", i)), LinkedIP: clientIP(i), FilteringEnabled: true}
+			ID: agd.DeviceID(fmt.Sprintf("dev%05d", i)), LinkedIP: clientIP(i), FilteringEnabled: true, Name: devName(i)}
 		profs[i] = &agd.Profile{
 			FilterConfig: conf, Access: access.EmptyProfile{}, BlockingMode: blockingModes[i%len(blockingModes)],
 			Ratelimiter: agd.GlobalRatelimiter{}, ID: agd.ProfileID(fmt.Sprintf("prof%04d", i)),
@@ -209,6 +455,7 @@ func newFixture(cache *dnssvc.CacheConfig) *fixture {
 	}
 	pdb := stack.NotFoundProfileDB()
 	pdb.OnProfileByLinkedIP = func(_ context.Context, ip netip.Addr) (*agd.Profile, *agd.Device, error) {
+		f.hook(clientOfIP(ip), "profiledb")
 		for i := range profs {
 			if clientIP(i) == ip {
 				return profs[i], devs[i], nil
@@ -217,16 +464,46 @@ func newFixture(cache *dnssvc.CacheConfig) *fixture {
 
 		return nil, nil, profiledb.ErrDeviceNotFound
 	}
+	cl := agdtest.NewCloner()
 	mkFilter := func(profile int) filter.Interface {
+		rule := func(host string) filter.RuleText { return filter.RuleText("||" + host + "^") }
+
 		return &agdtest.Filter{
-			OnFilterRequest: func(_ context.Context, req *filter.Request) (filter.Result, error) {
-				if isBlockedFor(profile, req.Host) {
-					return &filter.ResultBlocked{List: "verif_list", Rule: filter.RuleText("||" + req.Host + "^")}, nil
+			OnFilterRequest: func(ctx context.Context, req *filter.Request) (filter.Result, error) {
+				f.hook(f.reqs[req.DNS.Id].Client, "filter-request")
+				f.identity(ctx, "FilterRequest", profile, req.DNS, req.RemoteIP, req.ClientName, req)
+				switch {
+				case isBlockedFor(profile, req.Host):
+					return &filter.ResultBlocked{List: "verif_list", Rule: rule(req.Host)}, nil
+				case strings.HasPrefix(req.Host, "allow."):
+					return &filter.ResultAllowed{List: "verif_allow", Rule: rule(req.Host)}, nil
+				case strings.HasPrefix(req.Host, "cname."):
+					// A CNAME rewrite rule, as the safe-search and the rule-list
+					// filters make it: a clone of the request for another name.
+					mod := cl.Clone(req.DNS)
+					mod.Question[0].Name = cnameTargets[profile]
+
+					return &filter.ResultModifiedRequest{Msg: mod, List: "verif_cname", Rule: rule(req.Host)}, nil
+				case strings.HasPrefix(req.Host, "rewrite.") && req.QType == dns.TypeA:
+					resp, err := req.Messages.NewRespIP(req.DNS, rewriteIP(profile))
+					if err != nil {
+						return nil, err
+					}
+
+					return &filter.ResultModifiedResponse{Msg: resp, List: "verif_rewrite", Rule: rule(req.Host)}, nil
 				}
 
 				return nil, nil
 			},
-			OnFilterResponse: func(context.Context, *filter.Response) (filter.Result, error) { return nil, nil },
+			OnFilterResponse: func(ctx context.Context, resp *filter.Response) (filter.Result, error) {
+				f.hook(f.reqs[resp.DNS.Id].Client, "filter-response")
+				f.identity(ctx, "FilterResponse", profile, resp.DNS, resp.RemoteIP, resp.ClientName, nil)
+				if q := resp.DNS.Question[0]; strings.HasPrefix(q.Name, "rblock.") && profile%2 == 0 {
+					return &filter.ResultBlocked{List: "verif_resp_list", Rule: rule(q.Name)}, nil
+				}
+
+				return nil, nil
+			},
 		}
 	}
 	flts := make([]filter.Interface, nProfiles+1)
@@ -243,15 +520,59 @@ func newFixture(cache *dnssvc.CacheConfig) *fixture {
 		},
 		OnHasListID: func(filter.ID) bool { return true },
 	}
-	cl := agdtest.NewCloner()
 	// The cache metrics register with the default registerer under a fixed
 	// name; give every fixture its own.
 	prometheus.DefaultRegisterer = prometheus.NewRegistry()
 	srv := stack.NewServer("dns", agd.ProtoDNS, true)
-	st := stack.New(&stack.Config{ProfileDB: pdb, FilterStorage: fs, Upstream: upstream(), Cache: cache, Cloner: cl,
-		Servers: []*agd.Server{srv}})
+	// The constructor of the server (for clients without a profile) differs from
+	// the one of every profile.
+	msgs, err := dnsmsg.NewConstructor(&dnsmsg.ConstructorConfig{Cloner: cl, BlockingMode: &dnsmsg.BlockingModeNXDOMAIN{},
+		StructuredErrors: agdtest.NewSDEConfig(true), FilteredResponseTTL: 7 * time.Second, EDEEnabled: true})
+	hlib.Must(err)
+	conf := &stack.Config{ProfileDB: pdb, FilterStorage: fs, Upstream: upstream(f), Cache: cache, Cloner: cl,
+		Servers: []*agd.Server{srv}, Messages: msgs,
+		GeoData: func(_ string, ip netip.Addr) (*geoip.Location, error) {
+			f.hook(clientOfIP(ip), "geoip")
 
-	return &fixture{st: st, cloner: cl, srv: srv}
+			return geoFor(ip), nil
+		},
+		// Global access rules and the global rate limiter drop requests for
+		// two names without any response.
+		Access: &agdtest.AccessManager{
+			OnIsBlockedHost: func(host string, _ uint16) bool { return isAccessBlocked(host) },
+			OnIsBlockedIP: func(ip netip.Addr) bool {
+				f.hook(clientOfIP(ip), "access")
+
+				return false
+			},
+		},
+		RateLimit: &agdtest.RateLimit{
+			OnIsRateLimited: func(_ context.Context, req *dns.Msg, ip netip.Addr) (bool, bool, error) {
+				f.hook(clientOfIP(ip), "ratelimit")
+
+				return isRateLimited(req.Question[0].Name), false, nil
+			},
+			OnCountResponses: func(context.Context, *dns.Msg, netip.Addr) {},
+		},
+	}
+	if f.logPath != "" {
+		conf.QueryLog = querylog.NewFileSystem(&querylog.FileSystemConfig{Logger: slogutil.NewDiscardLogger(), Path: f.logPath,
+			RandSeed: 1})
+	} else {
+		conf.QueryLog = &agdtest.QueryLog{OnWrite: func(_ context.Context, e *querylog.Entry) error {
+			cp := *e
+			f.mu.Lock()
+			f.logEntries = append(f.logEntries, &cp)
+			f.mu.Unlock()
+			f.hook(clientOfIP(e.RemoteIP), "querylog")
+
+			return nil
+		}}
+	}
+	f.st = stack.New(conf)
+	f.cloner, f.srv = cl, srv
+
+	return f
 }
 
 // canon renders what the client receives.  Upstream TTLs are 300 and may have
@@ -316,15 +637,76 @@ func canon(m *dns.Msg) string {
 	return sb.String() + opts.String()
 }
 
+// logKey renders the query log of f, sorted: one line per entry with the fields
+// that the file format has, then " |" and the types of the filtering results
+// (known only to the recording log).  A line of the file that is not one JSON
+// object is rendered as such.
 func logKey(f *fixture) []string {
-	entries, _ := f.st.Effects.TakeLog()
-	keys := make([]string, 0, len(entries))
+	var keys []string
+	if f.logPath != "" {
+		data, _ := os.ReadFile(f.logPath)
+		for _, line := range strings.Split(strings.TrimSuffix(string(data), "\n"), "\n") {
+			if line == "" && len(data) == 0 {
+				continue
+			}
+			var e struct {
+				N, B, I, C, D, L, M string
+				IP                  *netip.Addr
+				R, Q, A, S          int
+			}
+			dec := json.NewDecoder(strings.NewReader(line))
+			if err := dec.Decode(&e); err != nil || dec.More() {
+				keys = append(keys, fmt.Sprintf("TORN-LINE %q", line))
+
+				continue
+			}
+			ip := netip.Addr{}
+			if e.IP != nil {
+				ip = *e.IP
+			}
+			keys = append(keys, fmt.Sprintf("%s %s %s %s rc=%d qt=%d client=%s/%d resp=%s list=%s rule=%s dnssec=%v |", e.N, e.B, e.I, ip,
+				e.R, e.Q, e.C, e.A, e.D, e.L, e.M, e.S != 0))
+		}
+		sort.Strings(keys)
+
+		return keys
+	}
+	f.mu.Lock()
+	entries := f.logEntries
+	f.logEntries = nil
+	f.mu.Unlock()
 	for _, e := range entries {
-		keys = append(keys, fmt.Sprintf("%s %s %s %s rc=%d", e.DomainFQDN, e.ProfileID, e.DeviceID, e.RemoteIP, e.ResponseCode))
+		typ := func(r filter.Result) string {
+			if r == nil {
+				return "-"
+			}
+
+			return fmt.Sprintf("%T", r)
+		}
+		var id filter.ID
+		var rule filter.RuleText
+		if e.RequestResult != nil {
+			id, rule = e.RequestResult.MatchedRule()
+		} else if e.ResponseResult != nil {
+			id, rule = e.ResponseResult.MatchedRule()
+		}
+		keys = append(keys, fmt.Sprintf("%s %s %s %s rc=%d qt=%d client=%s/%d resp=%s list=%s rule=%s dnssec=%v | req-res=%s resp-res=%s",
+			e.DomainFQDN, e.ProfileID, e.DeviceID, e.RemoteIP, e.ResponseCode, e.RequestType, e.ClientCountry, e.ClientASN,
+			e.ResponseCountry, id, rule, e.DNSSEC, typ(e.RequestResult), typ(e.ResponseResult)))
 	}
 	sort.Strings(keys)
 
 	return keys
+}
+
+// fileFields cuts the result types off the lines of a recorded log, so that it
+// can be compared with a log file.
+func fileFields(keys []string) (out []string) {
+	for _, k := range keys {
+		out = append(out, k[:strings.Index(k, " |")+2])
+	}
+
+	return out
 }
 
 // handle runs one request up to the point where the UDP writer of ServerBase
@@ -336,6 +718,7 @@ func (f *fixture) handle(q sreq) (resp *dns.Msg, err error) {
 		}
 	}()
 	req := q.msg()
+	defer f.done(q.ID)
 	out := f.st.Serve(context.Background(), &stack.Req{Server: f.srv, Msg: req,
 		Remote: netip.AddrPortFrom(clientIP(q.Client), 5353), Local: netip.MustParseAddrPort("192.0.2.2:53")})
 	if out.Err != nil {
@@ -383,7 +766,9 @@ func (f *fixture) serve(q sreq) (got string, err error) {
 
 func genStackReqs(rng *rand.Rand, nClients, perClient int) (streams [][]sreq) {
 	pool := []string{"blocked.example.", "p0-blocked.example.", "p1-blocked.example.", "p2-blocked.example.",
-		"p3-blocked.example.", "one.example.", "two.example.", "three.example.org.", "four.test.", "five.test."}
+		"p3-blocked.example.", "one.example.", "two.example.", "three.example.org.", "four.test.", "five.test.",
+		"cname.example.", "cname.example.", "rblock.example.", "allow.example.", "rewrite.example.", "One.Example.",
+		"accessblocked.example.", "ratelimited.example."}
 	id := uint16(rng.IntN(1000))
 	for c := 0; c < nClients; c++ {
 		var s []sreq
@@ -416,7 +801,7 @@ func heldRun(streams [][]sreq, want [][]string, order []hidx, window int, cache 
 		resp  *dns.Msg
 		early string
 	}
-	f = newFixture(cache)
+	f = newFixture(cache, reqTable(streams))
 	var queue []pending
 	release := func(p pending) {
 		q := streams[p.at.C][p.at.K]
@@ -452,8 +837,24 @@ func heldRun(streams [][]sreq, want [][]string, order []hidx, window int, cache 
 	for _, p := range queue {
 		release(p)
 	}
+	viols = append(viols, f.idViols...)
 
 	return viols, f, n
+}
+
+// reqTable indexes the requests of a round by their ID.
+func reqTable(streams [][]sreq) map[uint16]sreq {
+	t := map[uint16]sreq{}
+	for _, s := range streams {
+		for _, q := range s {
+			if _, dup := t[q.ID]; dup {
+				panic("request IDs of a round must be unique")
+			}
+			t[q.ID] = q
+		}
+	}
+
+	return t
 }
 
 // heldRound is heldRun on a random interleaving of the streams.
@@ -522,11 +923,314 @@ func heldRound(rng *rand.Rand, r *hlib.Result, streams [][]sreq, want [][]string
 	}
 }
 
+// liveRound serves the streams with one goroutine per client and compares every
+// response, the identities seen by the filters and the query log with what
+// each request gets alone.  With yieldSeed == 0 the goroutines run on all
+// processors; otherwise they share one processor and yield exactly at the
+// hooks of the fixture (upstream, filters, GeoIP), a number of times that is a
+// function of the seed, the request and the hook: an interleaving at the
+// points where the pooled request contexts are live, reproducible from the
+// replay.
+func liveRound(r *hlib.Result, mode string, yieldSeed uint64, count bool, streams [][]sreq, want [][]string,
+	aloneLog [][][]string, cache *dnssvc.CacheConfig, cname string) (nontrivial bool) {
+	nClients := len(streams)
+	reqs := reqTable(streams)
+	replay := map[string]any{"campaign": "stack-" + mode, "cache": cname, "yield_seed": yieldSeed, "streams": streams}
+	func() {
+		conc := newFixture(cache, reqs)
+		got := make([][]string, nClients)
+		first := make([]int, nClients)
+		for c := range streams {
+			got[c] = make([]string, len(streams[c]))
+		}
+		if mode == "concurrent-filelog" {
+			// The production query log, and a history: the directory of the log
+			// file is not there while the first request of every client is
+			// served (the writes fail, which is not critical), then it appears.
+			dir, err := os.MkdirTemp("", "c07-qlog")
+			hlib.Must(err)
+			defer func() { _ = os.RemoveAll(dir) }()
+			conc = newFixture(cache, reqs, dir+"/sub/query.log")
+			for c := range streams {
+				g, serr := conc.serve(streams[c][0])
+				if serr != nil {
+					g = "ERROR " + serr.Error()
+				}
+				got[c][0], first[c] = g, 1
+			}
+			hlib.Must(os.Mkdir(dir+"/sub", 0o755))
+		}
+		var wantLog []string
+		for c := range aloneLog {
+			for k := first[c]; k < len(aloneLog[c]); k++ {
+				wantLog = append(wantLog, aloneLog[c][k]...)
+			}
+		}
+		if conc.logPath != "" {
+			wantLog = fileFields(wantLog)
+		}
+		sort.Strings(wantLog)
+		conc.yieldSeed = yieldSeed
+		if yieldSeed != 0 {
+			// One P: the goroutines take turns exactly where a hook yields.
+			defer runtime.GOMAXPROCS(runtime.GOMAXPROCS(1))
+		}
+		errs := make([]error, nClients)
+		var wg sync.WaitGroup
+		start := make(chan struct{})
+		for c := range streams {
+			wg.Add(1)
+			go func(c int) {
+				defer wg.Done()
+				<-start
+				for k, q := range streams[c] {
+					if k < first[c] {
+						continue
+					}
+					g, err := conc.serve(q)
+					if err != nil {
+						errs[c] = err
+
+						return
+					}
+					got[c][k] = g
+				}
+			}(c)
+		}
+		close(start)
+		wg.Wait()
+		gotLog := logKey(conc)
+
+		nontrivial = false
+		for c := range streams {
+			if errs[c] != nil {
+				r.Violate("stack-error-"+mode, fmt.Sprintf("client %d: %v", c, errs[c]), streams)
+
+				continue
+			}
+			for k, q := range streams[c] {
+				kind := "upstream"
+				switch host := strings.ToLower(q.Name); {
+				case isBlockedFor(profileOf(c), host):
+					kind = "blocked"
+					nontrivial = true
+				case isAccessBlocked(host):
+					kind = "dropped-by-access"
+				case isRateLimited(host):
+					kind = "dropped-by-ratelimit"
+				case strings.HasPrefix(host, "cname."):
+					kind = "cname-rewrite"
+				case strings.HasPrefix(host, "rblock.") && profileOf(c)%2 == 0:
+					kind = "blocked-by-response"
+				case strings.HasPrefix(host, "allow."):
+					kind = "allowed"
+				case strings.HasPrefix(host, "rewrite.") && q.Qtype == dns.TypeA:
+					kind = "rewritten-response"
+				}
+				if q.Chaos {
+					kind += "+debug"
+				}
+				if devName(c) != "" && count {
+					r.Count("stack.req.named-device")
+				}
+				if count {
+					r.Count("stack.req." + kind)
+				}
+				r.Evaluations++
+				if got[c][k] != want[c][k] {
+					sig := mode + "-response-differs-from-solo"
+					if strings.HasPrefix(got[c][k], "FOREIGN-ECS") {
+						sig = "response-client-subnet-of-another-request"
+					} else if strings.HasPrefix(got[c][k], "FOREIGN") {
+						sig = "response-id-or-question-of-another-request"
+					}
+					r.Violate(sig, fmt.Sprintf("cache=%s clients=%d request %+v: alone %q, %s %q", cname, nClients, q,
+						want[c][k], mode, got[c][k]), replay)
+				}
+			}
+		}
+		if strings.Join(gotLog, "\n") != strings.Join(wantLog, "\n") {
+			diff := ""
+			for i := range wantLog {
+				if i >= len(gotLog) || gotLog[i] != wantLog[i] {
+					diff = fmt.Sprintf("first difference at sorted entry %d: alone %q", i, wantLog[i])
+					if i < len(gotLog) {
+						diff += fmt.Sprintf(", %s %q", mode, gotLog[i])
+					}
+
+					break
+				}
+			}
+			r.Violate("querylog-identity-differs-from-solo", fmt.Sprintf("cache=%s %s: %d vs %d entries; %s", cname, mode, len(wantLog),
+				len(gotLog), diff), replay)
+		}
+		for _, v := range conc.idViols {
+			r.Violate(v.sig, fmt.Sprintf("cache=%s clients=%d %s, %s", cname, nClients, mode, v.what), replay)
+
+			break
+		}
+	}()
+
+	return nontrivial
+}
+
+// alone serves q on a new stack and returns what the client receives and the
+// query-log lines; results are remembered (they are a function of q).
+type aloneResult struct {
+	got string
+	log []string
+}
+
+var aloneMemo = map[sreq]aloneResult{}
+
+func alone(q sreq, reqs map[uint16]sreq) aloneResult {
+	if a, ok := aloneMemo[q]; ok {
+		return a
+	}
+	f := newFixture(nil, reqs)
+	got, err := f.serve(q)
+	if err != nil {
+		got = "ERROR " + err.Error()
+	}
+	a := aloneResult{got: got, log: logKey(f)}
+	aloneMemo[q] = a
+
+	return a
+}
+
+// overlapCampaign is the "overlap with history" campaign.  For every kind of
+// history (a request dropped by the access rules, dropped by the rate limiter,
+// blocked, rewritten, a debug request, a cache hit, nothing) and every boundary
+// of the stack, request A is held at that boundary while request B of another
+// client is served completely; then A goes on.  All of it on one processor, so
+// that sync.Pool hands B exactly what the history and A have put back: an
+// object that was put twice, or too early, is then used by A and B at the same
+// time.  Responses, identities at the filters and query-log lines of A and B
+// must be those of A and B alone.
+func overlapCampaign(o *hlib.Opts, r *hlib.Result) {
+	defer runtime.GOMAXPROCS(runtime.GOMAXPROCS(1))
+	type hist struct {
+		name string
+		reqs []sreq
+	}
+	mk := func(client int, name string, qt uint16, edns int, id uint16) sreq {
+		return sreq{Client: client, Name: name, Qtype: qt, EDNS: edns, ID: id}
+	}
+	hists := []hist{
+		{"none", nil},
+		{"dropped-by-access", []sreq{mk(2, "accessblocked.example.", dns.TypeA, 1, 1)}},
+		{"dropped-by-access-anonymous", []sreq{mk(7, "accessblocked.example.", dns.TypeA, 0, 1), mk(2, "accessblocked.example.", dns.TypeAAAA, 3, 2)}},
+		{"dropped-by-ratelimit", []sreq{mk(2, "ratelimited.example.", dns.TypeA, 1, 1)}},
+		{"blocked", []sreq{mk(2, "blocked.example.", dns.TypeA, 2, 1)}},
+		{"cname-rewrite", []sreq{mk(3, "cname.example.", dns.TypeA, 0, 1)}},
+		{"cache-hit", []sreq{mk(2, "one.example.", dns.TypeA, 1, 1), mk(3, "one.example.", dns.TypeA, 1, 2)}},
+		{"debug", []sreq{{Client: 2, Name: "two.example.", Qtype: dns.TypeTXT, Chaos: true, EDNS: 1, ID: 1}}},
+	}
+	pairs := [][2]sreq{
+		{mk(0, "p0-blocked.example.", dns.TypeA, 1, 100), mk(1, "p0-blocked.example.", dns.TypeA, 1, 101)},
+		{mk(1, "one.example.", dns.TypeA, 0, 100), mk(5, "one.example.", dns.TypeA, 3, 101)},
+		{mk(5, "blocked.example.", dns.TypeAAAA, 2, 100), mk(3, "blocked.example.", dns.TypeAAAA, 2, 101)},
+		{mk(6, "two.example.", dns.TypeHTTPS, 4, 100), mk(0, "three.example.org.", dns.TypeHTTPS, 0, 101)},
+		{mk(3, "cname.example.", dns.TypeA, 1, 100), mk(9, "five.test.", dns.TypeTXT, 1, 101)},
+		{{Client: 1, Name: "one.example.", Qtype: dns.TypeTXT, Chaos: true, EDNS: 1, ID: 100}, mk(4, "rewrite.example.", dns.TypeA, 0, 101)},
+		{mk(2, "rblock.example.", dns.TypeA, 3, 100), mk(1, "rblock.example.", dns.TypeA, 4, 101)},
+	}
+	caches := []struct {
+		name string
+		conf *dnssvc.CacheConfig
+	}{
+		{"none", nil},
+		{"simple", &dnssvc.CacheConfig{Type: dnssvc.CacheTypeSimple, NoECSCount: 16}},
+		{"ecs", &dnssvc.CacheConfig{Type: dnssvc.CacheTypeECS, NoECSCount: 16, ECSCount: 16}},
+	}
+	for _, h := range hists {
+		for ci, cache := range caches {
+			if !o.Thorough() && ci > 0 && h.name != "cache-hit" && h.name != "dropped-by-access" {
+				continue
+			}
+			for _, stage := range hookStages {
+				for pi, pair := range pairs {
+					for swap := 0; swap < 2; swap++ {
+						a, b := pair[swap], pair[1-swap]
+						all := append(append([]sreq{}, h.reqs...), a, b)
+						reqs := reqTable([][]sreq{all})
+						f := newFixture(cache.conf, reqs)
+						var wantLog []string
+						for _, q := range h.reqs {
+							// The history; the responses are released as ServerBase
+							// does after writing them.
+							if _, err := f.serve(q); err != nil {
+								r.Violate("stack-error-history", fmt.Sprintf("request %+v: %v", q, err), q)
+							}
+							wantLog = append(wantLog, alone(q, reqs).log...)
+						}
+						f.parkStage, f.parkClient = stage, a.Client
+						f.parkedCh, f.resumeCh = make(chan struct{}), make(chan struct{})
+						var gotA, gotB string
+						doneA := make(chan struct{})
+						go func() {
+							defer close(doneA)
+							g, err := f.serve(a)
+							if err != nil {
+								g = "ERROR " + err.Error()
+							}
+							gotA = g
+						}()
+						parked := false
+						select {
+						case <-f.parkedCh:
+							parked = true
+						case <-doneA:
+						}
+						g, err := f.serve(b)
+						if err != nil {
+							g = "ERROR " + err.Error()
+						}
+						gotB = g
+						close(f.resumeCh)
+						<-doneA
+						r.Evaluations += 2
+						r.Traces++
+						if parked {
+							r.Count("overlap.parked-at=" + stage)
+						} else {
+							r.Count("overlap.stage-not-passed")
+						}
+						r.Count("overlap.history=" + h.name)
+						wantLog = append(wantLog, alone(a, reqs).log...)
+						wantLog = append(wantLog, alone(b, reqs).log...)
+						sort.Strings(wantLog)
+						replay := map[string]any{"campaign": "stack-overlap", "cache": cache.name, "history": h.reqs, "held_request": a,
+							"held_at": stage, "served_meanwhile": b}
+						what := fmt.Sprintf("history %s, cache=%s: request %+v held at %s while %+v is served", h.name, cache.name, a, stage, b)
+						for i, q := range []sreq{a, b} {
+							got := []string{gotA, gotB}[i]
+							if w := alone(q, reqs).got; got != w {
+								r.Violate("overlapped-response-differs-from-solo", fmt.Sprintf("%s: request %+v alone %q, here %q", what, q, w, got),
+									replay)
+							}
+						}
+						for _, v := range f.idViols {
+							r.Violate(v.sig, what+": "+v.what, replay)
+
+							break
+						}
+						if gotLog := logKey(f); strings.Join(gotLog, "\n") != strings.Join(wantLog, "\n") {
+							r.Violate("querylog-identity-differs-from-solo", fmt.Sprintf("%s: alone %q, here %q", what, wantLog, gotLog), replay)
+						}
+						r.Case(fmt.Sprintf("overlap|%s|%s|%s|%d|%d", h.name, cache.name, stage, pi, swap), parked && len(h.reqs) > 0)
+					}
+				}
+			}
+		}
+	}
+}
+
 func stackCampaign(o *hlib.Opts, r *hlib.Result) {
 	rng := o.Rand("stack")
-	rounds := 40
+	rounds := 60
 	if o.Thorough() {
-		rounds = 150
+		rounds = 400
 	}
 	for round := 0; round < rounds; round++ {
 		nClients := 2 + rng.IntN(15)
@@ -545,91 +1249,38 @@ func stackCampaign(o *hlib.Opts, r *hlib.Result) {
 		r.Count(fmt.Sprintf("stack.clients=%d", nClients))
 		streams := genStackReqs(rng, nClients, perClient)
 
-		// Every request alone: a fresh stack without history for each.
-		solo := newFixture(nil)
+		// Every request alone: a new stack, with a new cloner and new pools,
+		// for each of them, so that nothing any other request has left behind
+		// can reach it.
+		reqs := reqTable(streams)
 		want := make([][]string, nClients)
+		aloneLog := make([][][]string, nClients)
+		var wantLog []string
 		for c, s := range streams {
 			for _, q := range s {
+				solo := newFixture(nil, reqs)
 				w, err := solo.serve(q)
 				if err != nil {
 					r.Violate("stack-error-solo", fmt.Sprintf("request %+v alone: %v", q, err), q)
 				}
+				for _, v := range solo.idViols {
+					r.Violate(v.sig+"(alone)", v.what, q)
+				}
 				want[c] = append(want[c], w)
+				lk := logKey(solo)
+				aloneLog[c] = append(aloneLog[c], lk)
+				wantLog = append(wantLog, lk...)
 			}
 		}
-		wantLog := logKey(solo)
+		sort.Strings(wantLog)
 
-		conc := newFixture(cache)
-		got := make([][]string, nClients)
-		errs := make([]error, nClients)
-		var wg sync.WaitGroup
-		start := make(chan struct{})
-		for c := range streams {
-			got[c] = make([]string, len(streams[c]))
-			wg.Add(1)
-			go func(c int) {
-				defer wg.Done()
-				<-start
-				for k, q := range streams[c] {
-					g, err := conc.serve(q)
-					if err != nil {
-						errs[c] = err
-
-						return
-					}
-					got[c][k] = g
-				}
-			}(c)
+		mode := "concurrent"
+		if round%3 == 2 {
+			mode = "concurrent-filelog"
 		}
-		close(start)
-		wg.Wait()
-		gotLog := logKey(conc)
-
-		nontrivial := false
-		for c := range streams {
-			if errs[c] != nil {
-				r.Violate("stack-error-concurrent", fmt.Sprintf("client %d: %v", c, errs[c]), streams)
-
-				continue
-			}
-			for k, q := range streams[c] {
-				kind := "upstream"
-				if strings.Contains(q.Name, "blocked") && (c >= nProfiles || isBlockedFor(c, q.Name)) {
-					kind = "blocked"
-					nontrivial = true
-				}
-				if q.Chaos {
-					kind = "debug"
-				}
-				r.Count("stack.req." + kind)
-				r.Evaluations++
-				if got[c][k] != want[c][k] {
-					sig := "concurrent-response-differs-from-solo"
-					if strings.HasPrefix(got[c][k], "FOREIGN-ECS") {
-						sig = "response-client-subnet-of-another-request"
-					} else if strings.HasPrefix(got[c][k], "FOREIGN") {
-						sig = "response-id-or-question-of-another-request"
-					}
-					r.Violate(sig, fmt.Sprintf("cache=%s clients=%d request %+v: alone %q, concurrently %q", cname, nClients, q,
-						want[c][k], got[c][k]), map[string]any{"campaign": "stack", "cache": cname, "streams": streams})
-				}
-			}
-		}
-		if strings.Join(gotLog, "\n") != strings.Join(wantLog, "\n") {
-			diff := ""
-			for i := range wantLog {
-				if i >= len(gotLog) || gotLog[i] != wantLog[i] {
-					diff = fmt.Sprintf("first difference at sorted entry %d: alone %q", i, wantLog[i])
-					if i < len(gotLog) {
-						diff += fmt.Sprintf(", concurrently %q", gotLog[i])
-					}
-
-					break
-				}
-			}
-			r.Violate("querylog-identity-differs-from-solo", fmt.Sprintf("cache=%s: %d vs %d entries; %s", cname, len(wantLog),
-				len(gotLog), diff), map[string]any{"campaign": "stack", "cache": cname, "streams": streams})
-		}
+		r.Count("stack.mode=" + mode)
+		nontrivial := liveRound(r, mode, 0, true, streams, want, aloneLog, cache, cname)
+		liveRound(r, "cooperative", 1+rng.Uint64()>>1, false, streams, want, aloneLog, cache, cname)
 		heldRound(rng, r, streams, want, wantLog, cache, cname)
 
 		var canonCase []string
@@ -642,7 +1293,7 @@ func stackCampaign(o *hlib.Opts, r *hlib.Result) {
 		r.Traces++
 		if round < 2 {
 			r.Sample(map[string]any{"stack_round": round, "cache": cname, "clients": nClients, "first_request": streams[0][0],
-				"first_response": got[0][0]}, 9)
+				"first_response_alone": want[0][0]}, 9)
 		}
 	}
 }
